@@ -27,17 +27,36 @@ PROPERTY Terminates
 """
 
 
-def make_env(narrow: bool) -> Any:
+WARMUP = ["$[?length(@.a) == 1]", "$[?count(@.*) == 1]", "$[?match(@.a, 'a')]", "$[?search(@.a, 'a')]", "$[?value(@.a) == 1]", "$[?length('abc') == 3]",
+          "$[?length(value(@..a)) == 1]", "$[?count($..a) == 1]", "$[?match(@.a, $.b)]", "$[?value(@.*) == 1 && count(@.*) > length(@.a)]", "$[?search(value(@.a), 'a')]",
+          "$[1]", "$[-1]", "$[1:2:1]", "$[?@.a == 1]", "$[?@.a]"]
+_warm: Dict[Any, Any] = {}
+
+
+def make_env(narrow: Any, warm: bool = False) -> Any:
+    """An environment with the record's integer limits ([lo, hi], or a false value for the defaults); with warm=True
+    one that has already compiled well-typed calls of every function with every kind of argument."""
     import jsonpath
 
+    key = json.dumps(narrow)
+    if warm and key in _warm:
+        return _warm[key]
     if not narrow:
-        return jsonpath.JSONPathEnvironment(well_typed=True)
+        env = jsonpath.JSONPathEnvironment(well_typed=True)
+    else:
+        class Narrow(jsonpath.JSONPathEnvironment):
+            min_int_index = narrow[0]
+            max_int_index = narrow[1]
 
-    class Narrow(jsonpath.JSONPathEnvironment):
-        min_int_index = -5
-        max_int_index = 5
-
-    return Narrow(well_typed=True)
+        env = Narrow(well_typed=True)
+    if warm:
+        for q in WARMUP:
+            try:
+                env.compile(q)
+            except Exception:  # noqa: BLE001
+                pass
+        _warm[key] = env
+    return env
 
 
 def defect_kind(q: Any) -> str:
@@ -87,7 +106,7 @@ def replay(rec: Dict[str, Any]) -> List[Tuple[str, Dict[str, Any], str]]:
                 pass
             env2.well_typed = True
             if rec["narrow"]:
-                env2.min_int_index, env2.max_int_index = -5, 5
+                env2.min_int_index, env2.max_int_index = rec["narrow"]
             try:
                 env2.compile(text)
                 acc2 = True
@@ -98,17 +117,31 @@ def replay(rec: Dict[str, Any]) -> List[Tuple[str, Dict[str, Any], str]]:
                 disc = f"reconfigured-environment-refused-with-{exc_family(e)}"
             if not disc and acc2 != rec["accept"]:
                 disc = "reconfigured-environment-" + ("accepted-but-must-be-refused" if acc2 else "refused-but-valid")
+        if not disc:
+            # ... nor on what the environment compiled earlier under the same configuration
+            envw = make_env(rec["narrow"], warm=True)
+            try:
+                envw.compile(text)
+                accw = True
+            except JSONPathError:
+                accw = False
+            except BaseException as e:  # noqa: BLE001
+                accw = False
+                disc = f"used-environment-refused-with-{exc_family(e)}"
+            if not disc and accw != rec["accept"]:
+                disc = "used-environment-" + ("accepted-but-must-be-refused" if accw else "refused-but-valid")
         if disc:
-            return [(f"{disc}|{'narrow' if rec['narrow'] else 'default'}|{defect_kind(rec['q'])}",
+            lims = "default" if not rec["narrow"] else ("narrow" if rec["narrow"][0] == -rec["narrow"][1] else "asymmetric")
+            return [(f"{disc}|{lims}|{defect_kind(rec['q'])}",
                      {"query": text, "style": si, "spec_accepts": rec["accept"], "narrow_limits": rec["narrow"], "tagged": rec}, disc)]
     return []
 
 
 def run(chk: Check, tier: str, seed: int) -> None:
     recs: List[Dict[str, Any]] = []
-    plan = [("positions", False), ("selectors", False), ("selectors", True)] + ([("pairs", False)] if tier == "thorough" else [])
+    plan = [("positions", None), ("selectors", None), ("selectors", [-5, 5]), ("selectors", [-3, 10]), ("selectors", [-10, 3])] + ([("pairs", None)] if tier == "thorough" else [])
     for u, narrow in plan:
-        r = tlc("MC_Typing", CFG.format(universe=u, lo=5 if narrow else 100, hi=5 if narrow else 100), timeout=3000)
+        r = tlc("MC_Typing", CFG.format(universe=u, lo=-narrow[0] if narrow else 100, hi=narrow[1] if narrow else 100), timeout=3000)
         chk.add_tlc(r)
         for x in r.records:
             x["narrow"] = narrow
@@ -116,7 +149,7 @@ def run(chk: Check, tier: str, seed: int) -> None:
             recs.append(x)
     for rec, res in zip(recs, core.pmap(replay, recs)):
         chk.traces += len(rec["texts"])
-        chk.nontrivial.add((untext(rec["texts"][0]), rec["narrow"]))
+        chk.nontrivial.add((untext(rec["texts"][0]), json.dumps(rec["narrow"])))
         for sig, case, what in res:
             chk.violation(sig, case, what)
     acc = sum(1 for r in recs if r["accept"])
@@ -128,7 +161,8 @@ def run(chk: Check, tier: str, seed: int) -> None:
     chk.rule = ("terminal states of MC_Typing.tla: 13 well-typed and 27 ill-typed constructs (non-singular or logical-typed comparison operands, value-typed "
                 "tests, arity, argument kinds, unknown functions, uncompared literals) in 11 positions (top level, under !, in parentheses, either side of && / ||, "
                 "nested filters, descendant segments) (thorough: all pairs), selectors with leading zeros / empty or comma-terminated lists / bounds at, inside and "
-                "outside +-(2^53-1) and +-5 under narrowed limits, in 6 positions; 3 spellings each; every program contains a filter or an injected defect")
+                "outside +-(2^53-1) and, under narrowed limits -5..5, -3..10 and -10..3, at / inside / outside either limit and their mirror images, in 6 positions; every text "
+                "is also compiled in a reconfigured environment and in one that has compiled well-typed calls of every function before; 3 spellings each; every program contains a filter or an injected defect")
     chk.assumptions += ["a leading zero in a slice bound is not in the property's list of refusals and is not classified"]
 
 
